@@ -46,6 +46,10 @@ CLAIMED = {
          "Exploration: generated lexicons over numerals, separators and katakana, both plugin orders and settings, texts with numerals, separators at the edges and katakana runs are analysed in mode C with and without path rewriting; rewritten boundaries must be plain boundaries, a token covering several plain tokens must carry the concatenation of their dictionary-side surfaces and a POS a configured plugin prescribes, a token covering one plain token must be identical to it except for the documented single-token numeral normalisation. No absence claim.",
          "Rows with cost -32768 are not generated (their load-time cost depends on the configured plugins, which would make the two sides of the differential different dictionaries). Texts containing empty-range tokens are only judged on the boundary clause. Which tokens get merged is not constrained here (C15 does that for numerals).",
          "DESIGN.md section 4, C14"),
+ "C15": ("property-based testing (proptest): numerals generated from a structure together with the decimal rendering of their value; named near-miss mutations judged by a conservative three-valued classifier",
+         "Exploration: well-formed numerals (plain digits up to 30 places with leading zeros, Arabic / kanji / mixed / full-width, separators, fractions, unit notation with positional and 千百十 sections and an arbitrarily long top section, fraction x unit) embedded between neutral words must be covered by exactly one token whose normalised form equals the reference decimal string; near misses (bad group width, leading / trailing / double separators, second point, units out of order, leading large unit, noise) must never yield a joined token whose surface is definitely malformed, and joined simple numerals must carry their value. No absence claim.",
+         "The generator is a subset of the notations the statement names; shapes outside the generator and outside the malformation rules (e.g. repeated units with a consistent sum reading, zero times a unit) are not judged. Dictionary: one-character numeral entries only (nothing shadows the numeral).",
+         "DESIGN.md section 4, C15"),
  "C17": ("property-based testing (proptest): generated definition files against a union-of-covering-lines reference; point queries at all range ends and neighbours, random scalars, and (thorough) every scalar value",
          "Exploration: for generated char.def files (overlapping, nested, adjacent, duplicated, single-point ranges around 0, the UTF-8 width boundaries, the surrogate gap and U+10FFFF; ALL and NOOOVBOW flags; comments and category lines) that load, the reported classes at every range end +-1, 0, U+10FFFF and 64 random scalars equal the union of covering lines (DEFAULT if none); the range iterator must be ordered, gap free and consistent with point queries. No absence claim.",
          "Files the loader rejects (reversed range, range ending at U+D7FF or U+10FFFF, unknown class) are not judged: the statement speaks about files that load. The iterator is only checked for files with at least one range line.",
